@@ -343,7 +343,7 @@ fn run(ctx: &mut Ctx, si: usize, _case: u64) {
             let b = build(&spec, &mut ctx.rng);
             let nf = 1 + ctx.rng.usize_below(4);
             let faults = (0..nf)
-                .map(|_| crate::monitor::io::Fault { at_call: 4 + ctx.rng.below(400) as u32, kind: crate::monitor::io::FaultKind::Error, permanent: false })
+                .map(|_| crate::monitor::io::Fault { at_call: 4 + ctx.rng.below(400) as u32, kind: if ctx.rng.bool() { crate::monitor::io::FaultKind::Error } else { crate::monitor::io::FaultKind::Eof }, permanent: false })
                 .collect();
             let policy = Policy { max_chunk: [8usize, 16, 48][ctx.rng.usize_below(3)], interrupt_per_256: 0, faults };
             judge_file_opt(ctx, &b.bytes, &format!("generated {} behind a short-reading reader with {nf} transient faults", enc.name()), policy, true, true);
